@@ -13,7 +13,9 @@ L(y, m, d, hh, mi, ss, p) == [y |-> y, m |-> m, d |-> d, hh |-> hh, mi |-> mi, s
 AbsLits == { L(2017, 5, 1, 0, 0, 0, 1), L(2017, 4, 30, 0, 0, 0, 1), L(2016, 2, 29, 0, 0, 0, 1), L(2016, 12, 31, 0, 0, 0, 1),
              L(2017, 1, 1, 0, 0, 0, 1), L(2017, 5, 1, 15, 0, 0, 2), L(2017, 5, 1, 0, 0, 0, 2), L(2016, 12, 31, 23, 0, 0, 2),
              L(2017, 5, 1, 15, 10, 0, 3), L(2016, 2, 29, 23, 59, 0, 3), L(2017, 1, 1, 0, 0, 0, 3),
-             L(2017, 5, 1, 15, 10, 30, 4), L(2016, 12, 31, 23, 59, 59, 4), L(2017, 1, 1, 0, 0, 0, 4), L(2016, 3, 1, 0, 0, 0, 4) }
+             L(2017, 5, 1, 15, 10, 30, 4), L(2016, 12, 31, 23, 59, 59, 4), L(2017, 1, 1, 0, 0, 0, 4), L(2016, 3, 1, 0, 0, 0, 4),
+             \* (the leap day of a year divisible by 400; the last day of a 30-day month)
+             L(2000, 2, 29, 0, 0, 0, 1), L(2000, 2, 29, 12, 0, 0, 2), L(2016, 11, 30, 0, 0, 0, 1) }
 (* relative literals: whole local days relative to the controlled clock *)
 R(word, k) == [y |-> 0, m |-> 0, d |-> 0, hh |-> 0, mi |-> 0, ss |-> 0, prec |-> 1, rel |-> k, word |-> word]
 RelLits == { R("today", 0), R("yesterday", -1), R("-2", -2), R("+1", 1) }
